@@ -5,6 +5,7 @@ pub mod c11;
 pub mod c12;
 pub mod c13;
 pub mod c15;
+pub mod c17;
 pub mod c21;
 pub mod c23;
 pub mod c35;
@@ -25,6 +26,7 @@ pub fn get(id: &str) -> Option<&'static dyn Property> {
         "C12" => Some(&c12::C12),
         "C13" => Some(&c13::C13),
         "C15" => Some(&c15::C15),
+        "C17" => Some(&c17::C17),
         "C21" => Some(&c21::C21),
         "C23" => Some(&c23::C23),
         "C35" => Some(&c35::C35),
@@ -33,4 +35,4 @@ pub fn get(id: &str) -> Option<&'static dyn Property> {
     }
 }
 
-pub const ALL_IDS: &[&str] = &["C01", "C02", "C07", "C08", "C09", "C10", "C11", "C12", "C13", "C15", "C21", "C23", "C35", "C39"];
+pub const ALL_IDS: &[&str] = &["C01", "C02", "C07", "C08", "C09", "C10", "C11", "C12", "C13", "C15", "C17", "C21", "C23", "C35", "C39"];
